@@ -17,7 +17,7 @@ set_option linter.unusedSimpArgs false
 
 variable {K V : Type} [Field K] [LinearOrder K] [IsStrictOrderedRing K] [AddCommGroup V] [Module K V]
 variable (c : Cfg K) (f : V → K × V) (hessp : V → V → V) (ip : V → V → K) (gradnorm : V → K)
-  (cg : V → V → V × Int)
+  (cgnorm : V → K) (cg : CgArgs K → V → V → V × Int)
 
 /-- what the eager line search returns -/
 theorem lsEager_spec (pos : V) (energy : K) (g : V) : ∀ (fuel ls : Nat) (gs : K) (dd : V) (reset : Bool),
@@ -44,37 +44,37 @@ theorem ite3_cases {α : Type} (A B : Prop) [Decidable A] [Decidable B] (x y z :
 def Inv (E0 : K) (s : NSt K V) : Prop := s.energy = (f s.pos).1 ∧ s.g = (f s.pos).2 ∧ s.energy ≤ E0
 
 theorem ncgEagerStep_inv (E0 : K) (i : Nat) (s : NSt K V) (h : Inv f E0 s) :
-    match ncgEagerStep c f hessp ip gradnorm cg i s with
-    | .next s' => Inv f E0 s' ∧ s'.energy ≤ s.energy
+    match ncgEagerStep c f hessp ip gradnorm cgnorm cg i s with
+    | .next s' => Inv f E0 s' ∧ s'.energy ≤ s.energy ∧ s'.oldF = some s.energy
     | .stop (.ok r) => r.fn = (f r.x).1 ∧ r.jac = (f r.x).2 ∧ r.fn ≤ E0 ∧ r.fn ≤ s.energy ∧ r.nit = i
         ∧ (r.status = 0 ∨ (r.status = -1 ∧ r.x = s.pos))
     | .stop (.error _) => True := by
   obtain ⟨h1, h2, h3⟩ := h
-  have hls := lsEager_spec f hessp ip s.pos s.energy s.g 9 0 1 (cg s.pos s.g).1 false
+  have hls := lsEager_spec f hessp ip s.pos s.energy s.g 9 0 1 (cg (eagerCgArgs c cgnorm s) s.pos s.g).1 false
   unfold ncgEagerStep
   simp only [lineSearchEager] at hls ⊢
-  by_cases hc : (cg s.pos s.g).2 < 0
+  by_cases hc : (cg (eagerCgArgs c cgnorm s) s.pos s.g).2 < 0
   · simp only [hc, if_true]
   · simp only [hc, if_false]
-    by_cases hf : (lsEager f hessp ip s.pos s.energy s.g 9 0 1 (cg s.pos s.g).1 false).found = false
+    by_cases hf : (lsEager f hessp ip s.pos s.energy s.g 9 0 1 (cg (eagerCgArgs c cgnorm s) s.pos s.g).1 false).found = false
     · simp only [hf, if_true]
       refine ⟨h1, h2, h3, le_refl _, ?_⟩
       simp
-    · have hf' : (lsEager f hessp ip s.pos s.energy s.g 9 0 1 (cg s.pos s.g).1 false).found = true := by
+    · have hf' : (lsEager f hessp ip s.pos s.energy s.g 9 0 1 (cg (eagerCgArgs c cgnorm s) s.pos s.g).1 false).found = true := by
         simpa using hf
       obtain ⟨a, b, c', _⟩ := hls.1 hf'
       simp only [hf', Bool.true_eq_false, if_false]
       refine ite3_cases _ _ _ _ _ (fun (o : StepOut K V) => match o with
-        | .next s' => Inv f E0 s' ∧ s'.energy ≤ s.energy
+        | .next s' => Inv f E0 s' ∧ s'.energy ≤ s.energy ∧ s'.oldF = some s.energy
         | .stop (.ok r) => r.fn = (f r.x).1 ∧ r.jac = (f r.x).2 ∧ r.fn ≤ E0 ∧ r.fn ≤ s.energy ∧ r.nit = i
             ∧ (r.status = 0 ∨ (r.status = -1 ∧ r.x = s.pos))
         | .stop (.error _) => True) ?_ ?_ ?_
       · refine ⟨a, b, le_trans c' h3, c', ?_⟩; simp
       · refine ⟨a, b, le_trans c' h3, c', ?_⟩; simp
-      · exact ⟨⟨a, b, le_trans c' h3⟩, c'⟩
+      · exact ⟨⟨a, b, le_trans c' h3⟩, c', rfl⟩
 
 theorem ncgEagerLoop_inv (E0 : K) : ∀ (fuel i : Nat) (s : NSt K V), Inv f E0 s → ∀ r,
-    ncgEagerLoop c f hessp ip gradnorm cg fuel i s = .ok r →
+    ncgEagerLoop c f hessp ip gradnorm cgnorm cg fuel i s = .ok r →
     r.fn = (f r.x).1 ∧ r.jac = (f r.x).2 ∧ r.fn ≤ E0 := by
   intro fuel
   induction fuel with
@@ -85,9 +85,9 @@ theorem ncgEagerLoop_inv (E0 : K) : ∀ (fuel i : Nat) (s : NSt K V), Inv f E0 s
     exact h
   | succ fuel ih =>
     intro i s h r hr
-    have hstep := ncgEagerStep_inv c f hessp ip gradnorm cg E0 i s h
+    have hstep := ncgEagerStep_inv c f hessp ip gradnorm cgnorm cg E0 i s h
     rw [ncgEagerLoop] at hr
-    cases hE : ncgEagerStep c f hessp ip gradnorm cg i s with
+    cases hE : ncgEagerStep c f hessp ip gradnorm cgnorm cg i s with
     | stop r' =>
       rw [hE] at hstep hr
       simp only at hr
@@ -105,33 +105,33 @@ variable (tc : TCfg K) (gnorm : V → K) (sub : K → V → V → K → SubRes K
 
 def TInv (E0 : K) (p : TSt K V) : Prop := p.fn = (f p.x).1 ∧ p.jac = (f p.x).2 ∧ p.fn ≤ E0
 
-theorem trustStep_inv (hsub : ∀ fk gk xk tr, (sub fk gk xk tr).predF ≤ fk) (heta : 0 ≤ tc.eta) (E0 : K)
+theorem trustStep_inv (heta : 0 ≤ tc.eta) (E0 : K)
     (p : TSt K V) (h : TInv f E0 p) : TInv f E0 (trustStep tc f gnorm sub p) ∧ (trustStep tc f gnorm sub p).fn ≤ p.fn := by
   obtain ⟨h1, h2, h3⟩ := h
-  have hp := hsub p.fn p.jac p.x p.tr
   unfold trustStep
   simp only []
-  by_cases hacc : rhoGt (p.fn - (f (p.x + (sub p.fn p.jac p.x p.tr).step)).1) (p.fn - (sub p.fn p.jac p.x p.tr).predF)
-      tc.eta = true
+  by_cases hacc : (rhoGt (p.fn - (f (p.x + (sub p.fn p.jac p.x p.tr).step)).1) (p.fn - (sub p.fn p.jac p.x p.tr).predF)
+      tc.eta && decide (0 < p.fn - (sub p.fn p.jac p.x p.tr).predF)) = true
   · simp only [hacc, if_true]
     have hlt : (f (p.x + (sub p.fn p.jac p.x p.tr).step)).1 ≤ p.fn := by
-      unfold rhoGt at hacc
-      split_ifs at hacc with hz
-      · have := of_decide_eq_true hacc; linarith
-      · have hq := of_decide_eq_true hacc
-        have hpos : 0 < p.fn - (sub p.fn p.jac p.x p.tr).predF :=
-          lt_of_le_of_ne (by linarith) (Ne.symm hz)
-        have h0 : 0 < (p.fn - (f (p.x + (sub p.fn p.jac p.x p.tr).step)).1) /
-            (p.fn - (sub p.fn p.jac p.x p.tr).predF) := lt_of_le_of_lt heta hq
-        have := (div_pos_iff_of_pos_right hpos).mp h0
-        linarith
+      rw [Bool.and_eq_true] at hacc
+      obtain ⟨hr, hp⟩ := hacc
+      have hpos : 0 < p.fn - (sub p.fn p.jac p.x p.tr).predF := of_decide_eq_true hp
+      unfold rhoGt at hr
+      rw [if_neg (ne_of_gt hpos)] at hr
+      have hq := of_decide_eq_true hr
+      have h0 : 0 < (p.fn - (f (p.x + (sub p.fn p.jac p.x p.tr).step)).1) /
+          (p.fn - (sub p.fn p.jac p.x p.tr).predF) := lt_of_le_of_lt heta hq
+      have := (div_pos_iff_of_pos_right hpos).mp h0
+      linarith
     exact ⟨⟨rfl, rfl, le_trans hlt h3⟩, hlt⟩
-  · have hacc' : rhoGt (p.fn - (f (p.x + (sub p.fn p.jac p.x p.tr).step)).1)
-        (p.fn - (sub p.fn p.jac p.x p.tr).predF) tc.eta = false := by simpa using hacc
+  · have hacc' : (rhoGt (p.fn - (f (p.x + (sub p.fn p.jac p.x p.tr).step)).1)
+        (p.fn - (sub p.fn p.jac p.x p.tr).predF) tc.eta && decide (0 < p.fn - (sub p.fn p.jac p.x p.tr).predF)) = false := by
+      simpa using hacc
     simp only [hacc', Bool.false_eq_true, if_false]
     exact ⟨⟨h1, h2, h3⟩, le_refl _⟩
 
-theorem trustLoop_inv (hsub : ∀ fk gk xk tr, (sub fk gk xk tr).predF ≤ fk) (heta : 0 ≤ tc.eta) (E0 : K) :
+theorem trustLoop_inv (heta : 0 ≤ tc.eta) (E0 : K) :
     ∀ (fuel : Nat) (p : TSt K V), TInv f E0 p → TInv f E0 (trustLoop tc f gnorm sub fuel p) := by
   intro fuel
   induction fuel with
@@ -140,7 +140,7 @@ theorem trustLoop_inv (hsub : ∀ fk gk xk tr, (sub fk gk xk tr).predF ≤ fk) (
     intro p h
     simp only [trustLoop]
     split_ifs
-    · exact ih _ (trustStep_inv f tc gnorm sub hsub heta E0 p h).1
+    · exact ih _ (trustStep_inv f tc gnorm sub heta E0 p h).1
     · exact h
 
 end NiftyVerif.NewtonRe
